@@ -2109,6 +2109,17 @@ def c13_twin(a, b, c=None):
     ref = a if enq or c is None else c
     pa, ma = outline(ref)
     pb, mb = outline(b)
+    # Where exactly a keep-alive PINGREQ falls between the other packets depends on the instant the
+    # scheduler is consulted, and a re-issued poll consults it at once (Theorems/C13Machine.lean,
+    # C13_corner_pingreq_reorders: the uncancelled run writes PUBLISH, PINGREQ, the cancelled one
+    # PINGREQ, PUBLISH when the ping became due while the operation was suspended). The comparison is
+    # therefore: the same packets in the same order apart from PINGREQs, and the same number of PINGREQs.
+    def split(packets):
+        rest = [[q for q in tr if q != "c000"] for tr in packets]
+        pings = [sum(1 for q in tr if q == "c000") for tr in packets]
+        return rest, pings
+    if pa != pb and split(pa) == split(pb):
+        pb = pa
     if pa != pb or ma != mb:
         # F2b: the cancelled operation is a disconnect that had written part of its packet
         f = None
